@@ -1034,10 +1034,12 @@ class Interp:
         if isinstance(itv, GenList):
             return itv.elem
         if isinstance(itv, Arr) and itv.ndim >= 1 and itv.dims[0] is None and itv.mask is None:
+            if itv.ndim == 1 and itv.dt == 'i' and itv.poly.is_const() and itv.poly.const_value().denominator == 1:
+                return [int(itv.poly.const_value())]
             return [Arr(itv.dims[1:], itv.poly, None, itv.unit)]          # an unlabelled axis has one position
         if isinstance(itv, Arr) and itv.ndim >= 1 and itv.dims[0] and itv.mask is None and self.axis_len.get(itv.dims[0], 99) <= 16:
             # the configuration fixes the length of this axis: one iteration per position
-            els_ = [Arr(itv.dims[1:], alg.index_at(itv.poly, itv.dims[0], num(k_)), None, itv.unit) for k_ in range(self.axis_len[itv.dims[0]])]
+            els_ = [Arr(itv.dims[1:], alg.index_at(itv.poly, itv.dims[0], num(k_)), None, itv.unit, dt=itv.dt) for k_ in range(self.axis_len[itv.dims[0]])]
             if itv.ndim == 1 and itv.dt == 'i' and all(x_.poly.is_const() and x_.poly.const_value().denominator == 1 for x_ in els_):
                 return [int(x_.poly.const_value()) for x_ in els_]          # whole numbers (positions from arange, a list of indices): used as such
             return els_
@@ -2159,7 +2161,7 @@ class Interp:
     def _list_to_arr(self, lst):
         vals = [self._as_arr(x) for x in lst]
         if len(vals) == 1 and isinstance(vals[0], Arr) and vals[0].ndim == 0:
-            return Arr((None,), vals[0].poly, unit=vals[0].unit)
+            return Arr((None,), vals[0].poly, unit=vals[0].unit, dt='i' if isinstance(lst[0], int) and not isinstance(lst[0], bool) else vals[0].dt)
         if len(vals) <= 64 and all(isinstance(v, Arr) and v.ndim == 0 and v.mask is None for v in vals) and len({repr(v.unit) for v in vals}) <= 1:
             # a list of scalars made into an array: a fresh axis of that many positions, element k being the k-th scalar
             self._n_lists = getattr(self, '_n_lists', 0) + 1
@@ -2985,6 +2987,21 @@ class Interp:
                 x = self._as_arr(args[0])
                 if isinstance(x, Arr) and x.mask is None:
                     return x.with_(poly=x.poly * alg.b_not(alg.mk_ind('isnan', x.poly)))
+            if last == 'nan_to_num' and len(args) == 1 and not (set(kw) - {'copy', 'nan', 'posinf', 'neginf'}) and ('posinf' in kw) == ('neginf' in kw):
+                # nan= / posinf= / neginf= given: NaN becomes nan= (left alone when that is NaN itself), either infinity becomes the value given for both
+                x = self._as_arr(args[0])
+                nv_ = kw.get('nan', 0.)
+                keep_nan_ = (isinstance(nv_, Marker) and nv_.name in ('numpy.nan', 'numpy.NaN', 'math.nan')) or (isinstance(nv_, float) and nv_ != nv_)
+                pv_, mv_ = (self._as_arr(kw[k_]) for k_ in ('posinf', 'neginf')) if 'posinf' in kw else (None, None)
+                if isinstance(x, Arr) and x.mask is None and (keep_nan_ or _is_pynum(nv_)) and (pv_ is None or (isinstance(pv_, Arr) and isinstance(mv_, Arr) and pv_.ndim == 0 and pv_.poly == mv_.poly)):
+                    p_ = x.poly
+                    if pv_ is not None:
+                        inf_ = alg.mk_ind('isinf', x.poly)
+                        p_ = inf_ * pv_.poly + alg.b_not(inf_) * p_
+                    if not keep_nan_:
+                        nan_ = alg.mk_ind('isnan', x.poly)
+                        p_ = nan_ * num(nv_) + alg.b_not(nan_) * p_
+                    return x.with_(poly=p_)
             if last == 'nansum':
                 # the sum of the terms that are not NaN: sum(x * [not isnan(x)])
                 x = self._as_arr(args[0])
@@ -3197,6 +3214,8 @@ class Interp:
             if last == 'negative':
                 return self.binop(ast.Mult(), args[0], -1, e)
             if last == 'arange':
+                args = [(int(a_.poly.const_value()) if isinstance(a_, Arr) and a_.ndim == 0 and a_.mask is None and a_.poly.is_const() and a_.poly.const_value().denominator == 1 and a_.dt != 'f' else a_)
+                        for a_ in args]          # (whole numbers held as numpy scalars)
                 n = args[0]
                 if len(args) == 1 and isinstance(n, int) and not isinstance(n, bool) and 0 <= n <= 64:
                     return self._list_to_arr(list(range(n)))
@@ -3348,6 +3367,14 @@ class Interp:
                 return Unk('np.take_along_axis', e)
             if last in ('diagonal', 'transpose', 'swapaxes') and args and isinstance(self._as_arr(args[0]), Arr):
                 return self.method(self._as_arr(args[0]), last, list(args[1:]), kw, e, mod)           # np.f(x, ...) is x.f(...)
+            if last == 'broadcast_to' and len(args) == 2 and not (set(kw) - {'subok'}) and isinstance(args[1], Shape):
+                # the same values seen with the (longer) shape of another array: the axes of x are the last axes of that shape
+                x = self._as_arr(args[0])
+                sd_ = tuple(args[1].dims)
+                if isinstance(x, Arr) and x.mask is None and x.ndim <= len(sd_) and all(a_ == b_ or a_ is None for a_, b_ in zip(x.dims, sd_[len(sd_) - x.ndim:])) \
+                        and not (set(sd_[:len(sd_) - x.ndim]) & alg.poly_labels(x.poly)):
+                    return Arr(sd_, x.poly, None, x.unit)
+                return Unk('np.broadcast_to', e)
             if last == 'putmask' and len(args) == 3 and isinstance(e, ast.Call) and len(e.args) == 3 and not kw:
                 # np.putmask(a, mask, values): a[mask] = values, in place (values a scalar, or an array of a's shape taken where the mask holds)
                 dst_, wm_, src_ = self._as_arr(args[0]), self._as_arr(args[1]), args[2]
@@ -4164,6 +4191,10 @@ class Interp:
                 raise PyRaise('KeyError', repr(args[0]))
             return Unk('dict method %s' % name, e)
         if isinstance(recv, str):
+            if name == 'format':
+                # whole numbers held as numpy scalars are formatted like python's
+                args = [(int(a_.poly.const_value()) if isinstance(a_, Arr) and a_.ndim == 0 and a_.mask is None and a_.poly.is_const() and a_.poly.const_value().denominator == 1 and a_.dt == 'i' else a_)
+                        for a_ in args]
             if all(isinstance(a_, (str, int, float, bool, type(None))) for a_ in list(args) + list(kw.values())) and name in (
                     'format', 'upper', 'lower', 'strip', 'lstrip', 'rstrip', 'startswith', 'endswith', 'replace', 'split', 'join', 'zfill', 'ljust', 'rjust', 'center', 'title', 'isdigit', 'count', 'find'):
                 try:
